@@ -253,11 +253,14 @@ class Interp:
             s.add(a)
         s.add(c)
         t0 = time.time()
+        c0 = time.process_time()
         r = s.check()
         if r == z3.unknown:
-            # a wall-clock timeout on a loaded machine is not an answer: ask again with a long budget before treating the branch as feasible
-            s.set('timeout', 30000)
-            r = s.check()
+            # the timeout is wall-clock time.  If the solver got its share of the CPU the query is genuinely hard: the branch is kept (conservative).  If the
+            # process was starved (loaded machine: little CPU time consumed during the wait) that is not an answer: ask again with a long budget.
+            if time.process_time() - c0 < 1.0:
+                s.set('timeout', 30000)
+                r = s.check()
             if r == z3.unknown:
                 self.unknown_feasibility += 1
         self.solver_time += time.time() - t0
